@@ -163,7 +163,13 @@ def encode_url(url_str: str) -> "URL":
                 raise ValueError(msg)
             else:
                 host = ""
+        bracketed = "[" in netloc.rpartition("@")[2]
         host = _encode_host(host, validate_host=False)
+        if bracketed and "[" not in host:
+            # A bracketed host that is not an IPv6 address (e.g. IPvFuture)
+            # keeps its brackets: without them it could not be told apart
+            # from a reg-name and a port when the URL is parsed again.
+            host = f"[{host}]"
         # Remove brackets as host encoder adds back brackets for IPv6 addresses
         cache["raw_host"] = host[1:-1] if "[" in host else host
         cache["explicit_port"] = port
